@@ -8,7 +8,7 @@
     and reads [SX fs ((start + a + delays c)*nchans + c)].  Only property theorems here, each closed by [exact]. *)
 From Coq Require Import ZArith QArith List Bool.
 Require Import SPP.Base.Rt SPP.Base.Iter SPP.Gen.Plan SPP.Gen.C11Fold SPP.Model.C11_rt SPP.Model.Stream SPP.Model.Plan SPP.Model.C11_fold
-               SPP.Proofs.C11_kernel SPP.Proofs.C11_pipe SPP.Proofs.C11_verdict.
+               SPP.Proofs.C11_kernel SPP.Proofs.C11_pipe SPP.Proofs.C11_verdict SPP.Proofs.C11_call.
 Import ListNotations.
 Open Scope Z_scope.
 
@@ -195,6 +195,83 @@ Theorem C11_timeseries_counts : forall data size tsamp period accel nbins nints,
 Proof. exact ts_counts_sum. Qed.
 Print Assumptions C11_timeseries_counts.
 
+(** * the whole Filterbank.fold call: from the vector get_dmdelays returns to the accumulators *)
+
+(** [fold_call] = delay shift (regenerated [fold_delay_of], dmin = raw.min()) ; max_delay = max of the shifted delays ; gulp
+    adjustment ; skip-back ; read plan over ANY file list ; kernel per block.  [delays_law]: the regenerated shift refers the
+    delays to the earliest channel, d - min(0, dmin).  [call_span] = raw.max() - min(0, raw.min()) is the max_delay used. *)
+Theorem C11_delays_law_verdict : delays_law \/ fold_delay_of (-3) (-3) < 0.
+Proof. exact fold_delays_law_verdict. Qed.
+Print Assumptions C11_delays_law_verdict.
+
+(** for every raw delay vector whose smallest entry is not positive -- get_dmdelays is relative to channel 0, raw 0 = 0 -- (entries
+    of either sign: either band orientation, positive or negative DM), every file list
+    (one file, two files, ...), every gulp >= 1 and every sub-range: accumulator cell k holds the sum / the number of the
+    dedispersed samples x[start + a + raw_c - min(0, raw.min()), c], a < nsamps - span, sent to k; the hit counts sum to the
+    number of samples folded, (nsamps - span) * nchans, and the cell sums add up to the sum of all samples folded *)
+Theorem C11_call_accumulators : forall fs nch N gulp start nsamps nn raw tsamp period accel nbins nints nbands,
+  delays_law -> vmin (Z.to_nat nch) raw <= 0 -> 1 <= nfiles fs -> 1 <= nch -> total fs = N * nch -> 0 <= start -> 1 <= nsamps -> start + nsamps <= N -> 1 <= gulp ->
+  (nn = 1 -> nsamps = N - start) -> 1 <= nbins -> 1 <= nints -> 1 <= nbands -> call_span nch raw < nsamps ->
+  exists f cn, fold_call fs nch gulp start nsamps nn raw tsamp period accel nbins nints nbands = Some (f, cn) /\
+    (forall k, f k = cellsum nch (ccell nch N start nsamps nn tsamp period accel nbins nints nbands) (cval fs nch start raw) (nsamps - call_span nch raw) k /\
+               cn k = cellsum nch (ccell nch N start nsamps nn tsamp period accel nbins nints nbands) (fun _ _ => 1) (nsamps - call_span nch raw) k) /\
+    sum_n (Z.to_nat (fold_ncells nbins nints (fold_nbands nbands nch))) cn = (nsamps - call_span nch raw) * nch /\
+    sum_n (Z.to_nat (fold_ncells nbins nints (fold_nbands nbands nch))) f =
+      sum_n (Z.to_nat (nsamps - call_span nch raw)) (fun a => sum_n (Z.to_nat nch) (fun c => cval fs nch start raw a c)).
+Proof. exact fold_call_spec. Qed.
+Print Assumptions C11_call_accumulators.
+
+(** the same without hypothesis on the regenerated call site: it holds, or the shift lets a negative delay through *)
+Theorem C11_call_verdict :
+  (forall fs nch N gulp start nsamps nn raw tsamp period accel nbins nints nbands,
+     vmin (Z.to_nat nch) raw <= 0 -> 1 <= nfiles fs -> 1 <= nch -> total fs = N * nch -> 0 <= start -> 1 <= nsamps -> start + nsamps <= N -> 1 <= gulp ->
+     (nn = 1 -> nsamps = N - start) -> 1 <= nbins -> 1 <= nints -> 1 <= nbands -> call_span nch raw < nsamps ->
+     exists f cn, fold_call fs nch gulp start nsamps nn raw tsamp period accel nbins nints nbands = Some (f, cn) /\
+       (forall k, f k = cellsum nch (ccell nch N start nsamps nn tsamp period accel nbins nints nbands) (cval fs nch start raw) (nsamps - call_span nch raw) k /\
+                  cn k = cellsum nch (ccell nch N start nsamps nn tsamp period accel nbins nints nbands) (fun _ _ => 1) (nsamps - call_span nch raw) k) /\
+       sum_n (Z.to_nat (fold_ncells nbins nints (fold_nbands nbands nch))) cn = (nsamps - call_span nch raw) * nch /\
+       sum_n (Z.to_nat (fold_ncells nbins nints (fold_nbands nbands nch))) f =
+         sum_n (Z.to_nat (nsamps - call_span nch raw)) (fun a => sum_n (Z.to_nat nch) (fun c => cval fs nch start raw a c)))
+  \/ fold_delay_of (-3) (-3) < 0.
+Proof. exact fold_call_verdict. Qed.
+Print Assumptions C11_call_verdict.
+
+(** in cube coordinates: element [i, b, p] of the (nints, min(nbands,nchans), nbins) cube holds the sum / the number of exactly
+    the samples whose sub-integration (time order) is i, whose channel lies in sub-band b (channel order) and whose phase bin
+    (phase formula) is p *)
+Theorem C11_call_cube : forall fs nch N gulp start nsamps nn raw tsamp period accel nbins nints nbands,
+  delays_law -> vmin (Z.to_nat nch) raw <= 0 -> 1 <= nfiles fs -> 1 <= nch -> total fs = N * nch -> 0 <= start -> 1 <= nsamps -> start + nsamps <= N -> 1 <= gulp ->
+  (nn = 1 -> nsamps = N - start) -> 1 <= nbins -> 1 <= nints -> 1 <= nbands -> call_span nch raw < nsamps ->
+  exists f cn, fold_call fs nch gulp start nsamps nn raw tsamp period accel nbins nints nbands = Some (f, cn) /\
+    forall i b p, 0 <= b < fold_nbands nbands nch -> 0 <= p < nbins ->
+      f (cube_index (fold_cube_dims nints (fold_nbands nbands nch) nbins) i b p) =
+        cubesum nch (c_si N start nsamps nn nints) (c_sb nch nbands) (c_pb N start nsamps nn tsamp period accel nbins) (cval fs nch start raw) (nsamps - call_span nch raw) i b p /\
+      cn (cube_index (fold_cube_dims nints (fold_nbands nbands nch) nbins) i b p) =
+        cubesum nch (c_si N start nsamps nn nints) (c_sb nch nbands) (c_pb N start nsamps nn tsamp period accel nbins) (fun _ _ => 1) (nsamps - call_span nch raw) i b p.
+Proof. exact fold_call_cube. Qed.
+Print Assumptions C11_call_cube.
+
+(** the gulp does not enter the result of the whole call *)
+Theorem C11_call_gulp_irrelevant : forall fs nch N gulp start nsamps nn raw tsamp period accel nbins nints nbands,
+  delays_law -> vmin (Z.to_nat nch) raw <= 0 -> 1 <= nfiles fs -> 1 <= nch -> total fs = N * nch -> 0 <= start -> 1 <= nsamps -> start + nsamps <= N -> 1 <= gulp ->
+  (nn = 1 -> nsamps = N - start) -> 1 <= nbins -> 1 <= nints -> 1 <= nbands -> call_span nch raw < nsamps ->
+  forall g2, 1 <= g2 ->
+  exists f1 c1 f2 c2,
+    fold_call fs nch gulp start nsamps nn raw tsamp period accel nbins nints nbands = Some (f1, c1) /\
+    fold_call fs nch g2 start nsamps nn raw tsamp period accel nbins nints nbands = Some (f2, c2) /\
+    forall k, f1 k = f2 k /\ c1 k = c2 k.
+Proof. exact fold_call_gulp_irrelevant. Qed.
+Print Assumptions C11_call_gulp_irrelevant.
+
+(** TimeSeries.fold in cube coordinates (nints, 1, nbins) *)
+Theorem C11_timeseries_cube : forall data size tsamp period accel nbins nints, 1 <= size -> 1 <= nbins -> 1 <= nints ->
+  forall i p, 0 <= p < nbins ->
+  let si a := subint_of size nints a in let pb a := fold_phasebin tsamp period accel size nbins 0 a in
+  fst (ts_fold data size tsamp period accel nbins nints) (cube_index (ts_cube_dims nints nbins) i 0 p) = cubesum 1 si (fun _ => 0) pb (fun a _ => data a) size i 0 p /\
+  snd (ts_fold data size tsamp period accel nbins nints) (cube_index (ts_cube_dims nints nbins) i 0 p) = cubesum 1 si (fun _ => 0) pb (fun _ _ => 1) size i 0 p.
+Proof. exact ts_fold_cube. Qed.
+Print Assumptions C11_timeseries_cube.
+
 (** * non-vacuity *)
 
 (** 12 samples x 2 channels, delays (0,1), gulp 3 (several overlapping blocks), 2 bins x 2 sub-integrations x 2 sub-bands;
@@ -218,3 +295,35 @@ Proof. vm_compute. split; reflexivity. Qed.
 Example C11_example_fractional :
   map (subint_of 10 3) [0; 3; 4; 6; 7; 9] = [0; 0; 1; 1; 2; 2] /\ map (subband_of 5 3) [0; 1; 2; 3; 4] = [0; 0; 1; 1; 2].
 Proof. vm_compute. split; reflexivity. Qed.
+
+(** the whole call on TWO files (12 samples x 2 channels cut after sample 7), NEGATIVE raw delays (0, -2): shift 2, span 2;
+    the hypotheses of C11_call_accumulators hold; gulps 1, 3 and 50 give the same accumulators as the one-file call;
+    counts sum to (12 - 2) * 2 and the cell sums to the sum of the samples folded (a dichotomy like the verdicts, so that the file
+    still builds when the regenerated call site passes the delays through unshifted) *)
+Example C11_example_call :
+ (let xs := [1;2;3;4;5;6;7;8;9;10;11;12;13;14;15;16;17;18;19;20;21;22;23;24] in
+  let raw := of_list [0; -2] in
+  let run fs g := option_map (fun p => (to_list 8 (fst p), to_list 8 (snd p)))
+                    (fold_call fs 2 g 0 12 0 raw (1 # 1000) (137 # 10000) 0 2 2 2) in
+  let two := split_files xs 14 in
+  nfiles two = 2 /\ total two = 12 * 2 /\ vmin 2 raw <= 0 /\ call_shift 2 raw = -2 /\ call_span 2 raw = 2 /\ call_span 2 raw < 12 /\
+  run two 3 = Some ([32; 28; 20; 22; 0; 80; 0; 68], [4; 2; 4; 2; 0; 4; 0; 4]) /\
+  run two 1 = run two 3 /\ run two 50 = run two 3 /\ run (split_files xs 0) 3 = run two 3 /\
+  fold_right Z.add 0 [4; 2; 4; 2; 0; 4; 0; 4] = (12 - 2) * 2)
+ \/ fold_delay_of (-3) (-3) < 0.
+Proof. first [ left; vm_compute; repeat split; try reflexivity; discriminate | right; vm_compute; reflexivity ]. Qed.
+
+(** one channel (delay vector [0], any DM): 10 samples, 2 bins x 2 sub-integrations x min(3, 1) sub-bands *)
+Example C11_example_onechan :
+  option_map (fun p => (to_list 4 (fst p), to_list 4 (snd p)))
+    (fold_call [mkfile [224] [1;2;3;4;5;6;7;8;9;10]] 1 4 0 10 1 (of_list [0]) (1 # 1000) (137 # 10000) 0 2 2 3)
+  = Some ([10; 5; 0; 40], [4; 1; 0; 5]) /\ call_span 1 (of_list [0]) = 0.
+Proof. vm_compute. split; reflexivity. Qed.
+
+(** cube coordinates: TimeSeries.fold of 8 samples into (2, 1, 2) *)
+Example C11_example_ts_cube :
+  let r := ts_fold (of_list [1;2;3;4;5;6;7;8]) 8 (1 # 1000) (137 # 10000) 0 2 2 in
+  map (fun ip => fst r (cube_index (ts_cube_dims 2 2) (fst ip) 0 (snd ip))) [(0,0); (0,1); (1,0); (1,1)] =
+  map (fun ip => cubesum 1 (fun a => subint_of 8 2 a) (fun _ => 0) (fun a => fold_phasebin (1 # 1000) (137 # 10000) 0 8 2 0 a) (fun a _ => of_list [1;2;3;4;5;6;7;8] a) 8 (fst ip) 0 (snd ip))
+      [(0,0); (0,1); (1,0); (1,1)].
+Proof. vm_compute. reflexivity. Qed.
